@@ -29,7 +29,7 @@ func init() { vh.Register("C17", runC17) }
 
 type c17Tool struct {
 	Name    string `json:"name"`
-	Kind    string `json:"kind"` // inv | str | both | none | uinv | ustr (built by components/tool/utils, c17_utils.go)
+	Kind    string `json:"kind"`          // inv | str | both | none | uinv | ustr (built by components/tool/utils, c17_utils.go)
 	Req     string `json:"req,omitempty"` // uinv/ustr: request type val | ptr | map
 	Tag     string `json:"tag"`
 	Diverge bool   `json:"diverge,omitempty"` // both: the streamable form answers "S"+…
@@ -57,7 +57,7 @@ type c17Case struct {
 	Calls     []c17Call `json:"calls"`
 	Sigma     []int     `json:"sigma"` // completion order forced by the barrier script
 	Mode      string    `json:"mode"`  // invoke | stream
-	Host      string    `json:"host"`  // standalone | graph | graphConcat
+	Host      string    `json:"host"`  // standalone | graph | graphConcat | graphBranch | graphFan (c17_readers.go)
 	Sched     []int     `json:"sched"` // merge schedule the oracle uses (result must not depend on it)
 	Pipe      bool      `json:"pipe,omitempty"`
 	ViaOption bool      `json:"viaOption,omitempty"` // tools given by the WithToolList call option
@@ -70,6 +70,10 @@ type c17Case struct {
 	// first call only when all calls of the message are inside their tools
 	Prior   []c17Call `json:"prior,omitempty"`
 	Overlap bool      `json:"overlap,omitempty"`
+	// family `readers`: the node's stream is copied Readers times and every copy concatenated,
+	// in turn or (ReadConc) concurrently
+	Readers  int  `json:"readers,omitempty"`
+	ReadConc bool `json:"readConc,omitempty"`
 }
 
 // ---- canonical observables ----
@@ -91,10 +95,14 @@ type c17Obs struct {
 	Collected []*c17Msg   `json:"collected,omitempty"`
 	CollErr   string      `json:"collErr,omitempty"`
 	CtxErrs   []int       `json:"ctxErrs,omitempty"` // sources that delivered their context's error
-	Err       *c17Err     `json:"err,omitempty"`
-	PanicID   int         `json:"panicId,omitempty"`
-	Ran       int         `json:"ran"`
-	Note      string      `json:"note,omitempty"`
+	// family `readers`: what every further consumer of the stream concatenated / received
+	Readers    [][]*c17Msg `json:"readers,omitempty"`
+	ReaderErrs []string    `json:"readerErrs,omitempty"`
+	Modified   string      `json:"modified,omitempty"` // a chunk changed after it had been received
+	Err        *c17Err     `json:"err,omitempty"`
+	PanicID    int         `json:"panicId,omitempty"`
+	Ran        int         `json:"ran"`
+	Note       string      `json:"note,omitempty"`
 }
 
 // ---- the barrier script ----
@@ -102,18 +110,18 @@ type c17Obs struct {
 type c17PanicVal struct{ id int }
 
 type c17Env struct {
-	c      *c17Case
-	gate   []chan struct{}
-	done   []chan struct{}
-	count  []int32
-	errs   []error
-	abort  chan struct{}
-	mu     sync.Mutex
-	closed []bool
-	stray  int32 // executions whose argument names no call position
-	marker int   // value of the tool option passed with the call (0 = none passed)
-	badCtx int32 // executions that did not see their own call id / the tool option
-	late   *c17LateEnv
+	c       *c17Case
+	gate    []chan struct{}
+	done    []chan struct{}
+	count   []int32
+	errs    []error
+	abort   chan struct{}
+	mu      sync.Mutex
+	closed  []bool
+	stray   int32 // executions whose argument names no call position
+	marker  int   // value of the tool option passed with the call (0 = none passed)
+	badCtx  int32 // executions that did not see their own call id / the tool option
+	late    *c17LateEnv
 	arrived int32         // executions that have reached their gate
 	arrSig  chan struct{} // signalled on every arrival
 }
@@ -492,6 +500,7 @@ func c17RunImpl(c *c17Case) *c17Obs {
 
 	var invoke func() ([]*schema.Message, error)
 	var stream func() (*schema.StreamReader[[]*schema.Message], error)
+	rec := &c17Rec{seen: map[string][]*c17Msg{}, raw: map[string][]*schema.Message{}}
 	switch c.Host {
 	case "graph", "graphConcat":
 		g := compose.NewGraph[*schema.Message, []*schema.Message]()
@@ -522,6 +531,18 @@ func c17RunImpl(c *c17Case) *c17Obs {
 		}
 		invoke = func() ([]*schema.Message, error) { return r.Invoke(ctx, input, gopts...) }
 		stream = func() (*schema.StreamReader[[]*schema.Message], error) { return r.Stream(ctx, input, gopts...) }
+	case "graphBranch", "graphFan":
+		var gopts []compose.Option
+		if len(callOpts) > 0 {
+			gopts = append(gopts, compose.WithToolsNodeOption(callOpts...))
+		}
+		var err error
+		invoke, stream, err = c17ReaderHost(ctx, c, tn, rec, gopts, func() *schema.Message { return input })
+		if err != nil {
+			obs.Class = "build-error"
+			obs.Note = err.Error()
+			return obs
+		}
 	default:
 		invoke = func() ([]*schema.Message, error) { return tn.Invoke(ctx, input, callOpts...) }
 		stream = func() (*schema.StreamReader[[]*schema.Message], error) { return tn.Stream(ctx, input, callOpts...) }
@@ -572,6 +593,7 @@ func c17RunImpl(c *c17Case) *c17Obs {
 		runErr   error
 		recvErr  error
 		ctxErrs  []int
+		rds      []*c17Reader
 		panicked bool
 		pval     any
 	)
@@ -583,29 +605,81 @@ func c17RunImpl(c *c17Case) *c17Obs {
 					runErr = err
 					return
 				}
-				defer sr.Close()
 				if !env.late.free && c.hasLate() {
 					env.late.started = true
 					go env.lateScript()
 				}
-				for {
-					ch, err := sr.Recv()
-					if err == io.EOF {
-						return
-					}
-					if err != nil {
-						// the context error of a late producer ends that source only: note
-						// whose it is and read on (MergeStreamReaders goes on with the others)
-						var ce *c17CtxErr
-						if errors.As(err, &ce) && c.Host != "graphConcat" && len(ctxErrs) <= 4*len(c.Calls) {
-							ctxErrs = append(ctxErrs, ce.pos)
-							continue
-						}
-						recvErr = err
-						return
-					}
-					chunks = append(chunks, ch)
+				k := c.Readers
+				if k < 1 || c17ConcatHost(c) {
+					k = 1
 				}
+				srs := []*schema.StreamReader[[]*schema.Message]{sr}
+				if k >= 2 {
+					srs = sr.Copy(k)
+				}
+				defer func() {
+					for _, x := range srs {
+						x.Close()
+					}
+				}()
+				rds = make([]*c17Reader, k)
+				for j := range rds {
+					rds[j] = &c17Reader{}
+				}
+				readOne := func(j int) {
+					rd := rds[j]
+					nerr := 0
+					for {
+						ch, err := srs[j].Recv()
+						if err == io.EOF {
+							return
+						}
+						if err != nil {
+							// the context error of a late producer ends that source only: note
+							// whose it is and read on (MergeStreamReaders goes on with the others)
+							var ce *c17CtxErr
+							if errors.As(err, &ce) && !c17ConcatHost(c) && nerr <= 4*len(c.Calls) {
+								nerr++
+								if j == 0 {
+									ctxErrs = append(ctxErrs, ce.pos)
+								}
+								continue
+							}
+							rd.err = err
+							return
+						}
+						rd.raw = append(rd.raw, ch)
+						rd.snap = append(rd.snap, c17Snap(ch))
+					}
+				}
+				if !c.ReadConc || k < 2 {
+					for j := range rds {
+						readOne(j)
+						if rds[j].err == nil {
+							rds[j].concat()
+						}
+					}
+				} else {
+					var wg sync.WaitGroup
+					for j := range rds {
+						wg.Add(1)
+						go func(j int) { defer wg.Done(); readOne(j) }(j)
+					}
+					wg.Wait()
+					for j := range rds {
+						if rds[j].err == nil {
+							wg.Add(1)
+							go func(j int) { defer wg.Done(); rds[j].concat() }(j)
+						}
+					}
+					wg.Wait()
+				}
+				for _, rd := range rds {
+					if rd.err != nil && recvErr == nil {
+						recvErr = rd.err
+					}
+				}
+				chunks = rds[0].snap
 			} else {
 				msgs, runErr = invoke()
 			}
@@ -672,7 +746,7 @@ func c17RunImpl(c *c17Case) *c17Obs {
 	case c.Mode == "stream":
 		obs.Class = "ok"
 		n := len(c.Calls)
-		if c.Host != "graphConcat" {
+		if !c17ConcatHost(c) {
 			obs.Sources = make([][]*c17Msg, n)
 			for i := range obs.Sources {
 				obs.Sources[i] = []*c17Msg{}
@@ -694,14 +768,20 @@ func c17RunImpl(c *c17Case) *c17Obs {
 				obs.Sources[pos] = append(obs.Sources[pos], c17Canon(ch[pos], &shape))
 			}
 		}
-		coll, cerr := c17Collect(chunks)
-		obs.CollErr = cerr
-		if cerr == "" {
-			obs.Collected = make([]*c17Msg, len(coll))
-			for i, m := range coll {
-				obs.Collected[i] = c17Canon(m, &shape)
+		// the concatenations were made by the readers themselves, on the chunks as received
+		obs.CollErr = rds[0].collErr
+		obs.Collected = rds[0].coll
+		for j, rd := range rds {
+			if rd.shape != "" && shape == "" {
+				shape = rd.shape
 			}
+			if len(rds) >= 2 {
+				obs.Readers = append(obs.Readers, rd.coll)
+				obs.ReaderErrs = append(obs.ReaderErrs, rd.collErr)
+			}
+			_ = j
 		}
+		obs.Modified = c17Modified(rds)
 	default:
 		obs.Class = "ok"
 		obs.Msgs = make([]*c17Msg, len(msgs))
@@ -711,6 +791,20 @@ func c17RunImpl(c *c17Case) *c17Obs {
 	}
 	if shape != "" {
 		obs.Note += " message shape: " + shape + ";"
+	}
+	if obs.Class == "ok" {
+		// what the non-stream consumers inside the graph received
+		for _, name := range c17ReaderNames(c) {
+			rec.mu.Lock()
+			l, ok := rec.seen[name]
+			rec.mu.Unlock()
+			if !ok {
+				obs.Note += " consumer " + name + " did not run;"
+			}
+			obs.Readers = append(obs.Readers, l)
+			obs.ReaderErrs = append(obs.ReaderErrs, "")
+		}
+		obs.Note += rec.note
 	}
 	return obs
 }
@@ -742,14 +836,15 @@ type c17ModelErr struct {
 }
 
 type c17Model struct {
-	Class     string        `json:"class"`
-	Msgs      []*c17Msg     `json:"msgs"`
-	Sources   [][]*c17Msg   `json:"sources"`
-	Collected *c17ModelColl `json:"collected"`
-	CtxErrs   []int         `json:"ctxErrs"`
-	Err       *c17ModelErr  `json:"err"`
-	ID        int           `json:"id"`
-	Ran       int           `json:"ran"`
+	Class     string         `json:"class"`
+	Msgs      []*c17Msg      `json:"msgs"`
+	Sources   [][]*c17Msg    `json:"sources"`
+	Collected *c17ModelColl  `json:"collected"`
+	CtxErrs   []int          `json:"ctxErrs"`
+	Readers   []c17ModelColl `json:"readers"`
+	Err       *c17ModelErr   `json:"err"`
+	ID        int            `json:"id"`
+	Ran       int            `json:"ran"`
 }
 
 type c17ModelColl struct {
@@ -770,7 +865,7 @@ func c17Expect(c *c17Case, m *c17Model) *c17Obs {
 	switch m.Class {
 	case "ok":
 		if c.Mode == "stream" {
-			if c.Host != "graphConcat" {
+			if !c17ConcatHost(c) {
 				o.Sources = m.Sources
 				for i := range o.Sources {
 					if o.Sources[i] == nil {
@@ -785,10 +880,24 @@ func c17Expect(c *c17Case, m *c17Model) *c17Obs {
 			if len(m.CtxErrs) > 0 {
 				o.CtxErrs = m.CtxErrs
 			}
+			if c.Readers >= 2 && !c17ConcatHost(c) {
+				for _, rd := range m.Readers {
+					o.Readers = append(o.Readers, rd.Ok)
+					o.ReaderErrs = append(o.ReaderErrs, rd.Err)
+				}
+			}
+			for range c17ReaderNames(c) {
+				o.Readers = append(o.Readers, o.Collected)
+				o.ReaderErrs = append(o.ReaderErrs, "")
+			}
 		} else {
 			o.Msgs = m.Msgs
 			if o.Msgs == nil {
 				o.Msgs = []*c17Msg{}
+			}
+			for range c17ReaderNames(c) {
+				o.Readers = append(o.Readers, o.Msgs)
+				o.ReaderErrs = append(o.ReaderErrs, "")
 			}
 		}
 	case "err":
@@ -960,7 +1069,7 @@ func c17Key(c *c17Case) string {
 	for _, cl := range c.Calls {
 		names = append(names, cl.Name)
 	}
-	return fmt.Sprintf("%s/%s/%v/%v/%v/%s/%v/%v/%s", c.Mode, c.Host, kinds, names, c.Sigma, c17FaultShape(c), c.Handler, c.ViaOption, c17LateShape(c)+c17UtilsShape(c))
+	return fmt.Sprintf("%s/%s/%v/%v/%v/%s/%v/%v/%s", c.Mode, c.Host, kinds, names, c.Sigma, c17FaultShape(c), c.Handler, c.ViaOption, c17LateShape(c)+c17UtilsShape(c)+c17ReadersShape(c))
 }
 
 func c17Sig(c *c17Case, what string) string {
@@ -982,6 +1091,12 @@ func c17Sig(c *c17Case, what string) string {
 			sig += "+cancel"
 		}
 	}
+	if c.Readers >= 2 {
+		sig += fmt.Sprintf(":readers=%d", c.Readers)
+		if c.ReadConc {
+			sig += "+conc"
+		}
+	}
 	if c.hasUtils() {
 		// the failing input has a tool built by components/tool/utils
 		sig += ":utils"
@@ -995,7 +1110,7 @@ func c17Sig(c *c17Case, what string) string {
 // c17SigBase is the signature without the family suffix (the shrinker may leave the family).
 func c17SigBase(c *c17Case, what string) string {
 	s := c17Sig(c, what)
-	for _, suf := range []string{":late", ":utils"} {
+	for _, suf := range []string{":late", ":readers", ":utils"} {
 		if i := strings.Index(s, suf); i >= 0 {
 			s = s[:i]
 		}
@@ -1074,6 +1189,9 @@ func c17Compare(ctx *vh.Ctx, c *c17Case, raw json.RawMessage) error {
 	}
 	if got.Class == "panic" {
 		ctx.Res.Dist("panic-escapes-standalone-inline-task0")
+	}
+	if c.Readers >= 2 || c.Host == "graphBranch" || c.Host == "graphFan" {
+		ctx.Res.Dist(fmt.Sprintf("readers/host=%s/mode=%s/copies=%d/conc=%v", c.Host, c.Mode, c.Readers, c.ReadConc))
 	}
 	if c.hasUtils() {
 		for _, t := range c.Tools {
@@ -1167,7 +1285,7 @@ func c17Diff(c *c17Case, want, got *c17Obs) (what, text string) {
 	}
 	// graphConcat: the framework concatenates before the next node; an error of that
 	// concatenation is an error of the run
-	if c.Host == "graphConcat" && want.Class == "ok" && want.CollErr != "" {
+	if c17ConcatHost(c) && c.Mode == "stream" && want.Class == "ok" && want.CollErr != "" {
 		if got.Class != "err" {
 			return "concat-class", "model: the streamed form cannot be concatenated (" + want.CollErr + "); the implementation did not fail"
 		}
@@ -1190,10 +1308,15 @@ func c17Diff(c *c17Case, want, got *c17Obs) (what, text string) {
 		// a source delivered its context's error although the model's context is alive (or
 		// did not although the caller had cancelled)
 		what = "stream-ctx-error"
-	case c.Mode == "stream" && got.Class == "ok" && c.Host != "graphConcat" && !vh.CanonEq(got.Sources, want.Sources):
+	case c.Mode == "stream" && got.Class == "ok" && !c17ConcatHost(c) && !vh.CanonEq(got.Sources, want.Sources):
 		what = "stream-chunks"
 	case c.Mode == "stream" && got.Class == "ok" && (got.CollErr != want.CollErr || !vh.CanonEq(got.Collected, want.Collected)):
 		what = "stream-concat"
+	case got.Class == "ok" && (!vh.CanonEq(got.Readers, want.Readers) || !vh.CanonEq(got.ReaderErrs, want.ReaderErrs)):
+		// a further consumer of the node's stream did not get the list the first one got
+		what = "reader-concat"
+	case got.Class == "ok" && got.Modified != "":
+		what = "chunks-modified"
 	}
 	if what != "" {
 		text = fmt.Sprintf("%s differs between the implementation and the model (completion order %v)", what, c.Sigma)
@@ -1265,6 +1388,19 @@ func c17Shrink(ctx *vh.Ctx, c *c17Case, what string) (*c17Case, *c17Obs, *c17Obs
 	}
 	for budget := 40; budget > 0; {
 		progress := false
+		// family `readers`: fewer copies, read in turn
+		if cur.Readers > 2 || cur.ReadConc {
+			d := c17Clone(cur)
+			if d.ReadConc {
+				d.ReadConc = false
+			} else {
+				d.Readers--
+			}
+			budget--
+			if try(d) {
+				progress = true
+			}
+		}
 		// family `utils`: no earlier message
 		if len(cur.Prior) > 0 {
 			d := c17Clone(cur)
@@ -1427,7 +1563,7 @@ func c17Batch(ctx *vh.Ctx, cs []*c17Case) error {
 }
 
 func runC17(ctx *vh.Ctx) error {
-	ctx.Res.Rule = "tool-call lists of 0-6 calls (repeated tools, unknown names, odd ids) x invokable-only / streamable-only / both tools x completion order forced by a barrier script (tool i returns only when released; releases follow the permutation) x failing / panicking subsets x with/without unknown-tool handler x Invoke / Stream x standalone / graph / graph with framework-side concatenation; systematic part: every permutation of n<=4 (thorough: n<=5) calls x 0-2 faulty positions (error/panic) x Invoke/Stream; every execution also checks that the tool saw its own call id in the context and the tool option of the call; family late: streamable tools that send only their first chunks before StreamableRun returns and the others afterwards, looking at their context before each (fail / stop / ignore on a done context), the late steps of all producers forced into a scripted order (the script starts when Stream has returned and releases each step when the previous one has been taken), the caller cancelling its context never or a given number of steps into the script (systematic: 1-3 calls x late position x str/both x hold x onDone x cancel never/0/1/2 x standalone/graph, never-cancelled also as Invoke and with framework-side concatenation); family utils: tools built by utils.Infer(Optionable)(Stream)Tool / New(Stream)Tool over a request struct / pointer / map with optional fields, JSON arguments with any subset of the fields in any order, the same tool called several times in one message with different arguments, the user's function finding its call by the call id in the context and reading its request only after the script released it, the first release only when all calls of the message are inside their tools (overlap), optionally an earlier message through the same node (systematic: 2-3 calls of one tool x uinv/ustr x val/ptr/map x Invoke/Stream x standalone/graph x with/without earlier message x identity/reversed completion); non-trivial = at least 2 calls and the tools were run; distinct by (mode, host, tool kinds, call names, permutation, fault positions, handler, tool-list option, late calls with hold/onDone, cancellation point, request types of the utils tools, earlier message, overlap)"
+	ctx.Res.Rule = "tool-call lists of 0-6 calls (repeated tools, unknown names, odd ids) x invokable-only / streamable-only / both tools x completion order forced by a barrier script (tool i returns only when released; releases follow the permutation) x failing / panicking subsets x with/without unknown-tool handler x Invoke / Stream x standalone / graph / graph with framework-side concatenation; systematic part: every permutation of n<=4 (thorough: n<=5) calls x 0-2 faulty positions (error/panic) x Invoke/Stream; every execution also checks that the tool saw its own call id in the context and the tool option of the call; family late: streamable tools that send only their first chunks before StreamableRun returns and the others afterwards, looking at their context before each (fail / stop / ignore on a done context), the late steps of all producers forced into a scripted order (the script starts when Stream has returned and releases each step when the previous one has been taken), the caller cancelling its context never or a given number of steps into the script (systematic: 1-3 calls x late position x str/both x hold x onDone x cancel never/0/1/2 x standalone/graph, never-cancelled also as Invoke and with framework-side concatenation); family utils: tools built by utils.Infer(Optionable)(Stream)Tool / New(Stream)Tool over a request struct / pointer / map with optional fields, JSON arguments with any subset of the fields in any order, the same tool called several times in one message with different arguments, the user's function finding its call by the call id in the context and reading its request only after the script released it, the first release only when all calls of the message are inside their tools (overlap), optionally an earlier message through the same node (systematic: 2-3 calls of one tool x uinv/ustr x val/ptr/map x Invoke/Stream x standalone/graph x with/without earlier message x identity/reversed completion); family readers: several consumers of the node's stream, each concatenating (Copy(2..4) on standalone / graph, the copies read and concatenated in turn or concurrently; graph tools -> non-stream branch condition -> non-stream node; graph tools -> two non-stream successors; run with Stream and Invoke), every consumer's list compared with the model's and every chunk compared with the deep copy made when it was received; non-trivial = at least 2 calls and the tools were run; distinct by (mode, host, tool kinds, call names, permutation, fault positions, handler, tool-list option, late calls with hold/onDone, cancellation point, request types of the utils tools, earlier message, overlap, number of readers / concurrent reading)"
 	if ctx.Replay != nil {
 		var c c17Case
 		if err := json.Unmarshal(ctx.Replay, &c); err != nil {
@@ -1463,6 +1599,18 @@ func runC17(ctx *vh.Ctx) error {
 			return err
 		}
 	}
+	// family `readers`, systematic part
+	rsys := c17SystematicReaders()
+	roff := ctx.Rng.Intn(len(rsys))
+	for i := 0; i < len(rsys) && ctx.TimeLeft(); i += 200 {
+		var b []*c17Case
+		for j := i; j < i+200 && j < len(rsys); j++ {
+			b = append(b, rsys[(j+roff)%len(rsys)])
+		}
+		if err := c17Batch(ctx, b); err != nil {
+			return err
+		}
+	}
 	// family `utils`, systematic part
 	usys := c17SystematicUtils()
 	for i := 0; i < len(usys) && ctx.TimeLeft(); i += 200 {
@@ -1482,6 +1630,8 @@ func runC17(ctx *vh.Ctx) error {
 				b = append(b, c17GenLate(ctx.Rng))
 			} else if j%8 == 1 { // an eighth of the family `utils`
 				b = append(b, c17GenUtils(ctx.Rng))
+			} else if j%8 == 5 { // an eighth of the family `readers`
+				b = append(b, c17GenReaders(ctx.Rng))
 			} else {
 				b = append(b, c17Gen(ctx.Rng))
 			}
